@@ -100,6 +100,11 @@ def conversions(k_max=3, with_gen=True):
                 'def count_items():\n    """\n    Count the items\n\n    Returns\n    -------\n    int\n        the number of items\n    """\n')))
     # several parameters whose names end in 'kwargs': which one becomes **kwargs must not depend on set order
     out.append(("parse.class->emit.function/multi_kwargs", ("parse_class_emit_function", MULTI_KWARGS_SRC)))
+    # a type that holds two Literals: the order of the derived choices must not depend on set order
+    out.append(("emit.argparse/union_of_literals", ("emit_union_literals", None)))
+    # a live function object (in-memory path): return annotation, ':returns:' without ':rtype:', body ending in 'return None'
+    out.append(("parse.function(live)/returns_without_rtype->emit.rest", ("parse_live_emit_rest", LIVE_SRC)))
+    out.append(("parse.class(live)+init->emit.class", ("parse_live_class_emit_class", LIVE_SRC)))
     out += twin_conversions()
     if with_gen:
         out.append(("gen/class+prepend_import", ("gen", "class")))
@@ -181,6 +186,36 @@ MULTI_KWARGS_SRC = ('class Trainer(object):\n    """\n    Train things\n\n    :c
                     '    :cvar model_kwargs: extra keyword arguments for the model\n    :cvar optimizer_kwargs: extra keyword arguments for the optimizer\n'
                     '    :cvar loss_kwargs: extra keyword arguments for the loss"""\n    epochs: int = 3\n    model_kwargs: Optional[dict] = None\n'
                     '    optimizer_kwargs: Optional[dict] = None\n    loss_kwargs: Optional[dict] = None\n')
+
+LIVE_SRC = '''from typing import Optional
+
+
+def lookup(key, fallback=None, strict: bool = False) -> Optional[str]:
+    """
+    Look the key up
+
+    :param key: the key
+    :param fallback: what to hand back
+    :returns: the value found
+    """
+    return None
+
+
+class Store(object):
+    """
+    A store
+
+    :cvar size: the size
+    """
+
+    def __init__(self, size=4, label="l", ratio: float = 0.5):
+        """
+        init doc
+
+        :param size: the size
+        """
+        self.size = size
+'''
 
 GEN_MOD = '''
 import os
@@ -264,6 +299,33 @@ def run(spec):
         if kind == "function":
             return to_code(emit.function(ir, function_name=None, function_type=None))
         return to_code(emit.argparse_function(ir))
+    if op == "emit_union_literals":
+        from collections import OrderedDict
+
+        ir = {"name": None, "type": "static", "doc": "Summary", "returns": None, "params": OrderedDict((
+            ("transport", {"typ": "Union[Literal['tcp', 'udp'], Literal['unix', 'pipe', 'shm']]", "doc": "the transport", "default": "tcp"}),))}
+        return to_code(emit.argparse_function(ir)) + to_code(emit.class_(ir))
+    if op in ("parse_live_emit_rest", "parse_live_class_emit_class"):
+        import importlib
+        import shutil
+
+        d = tempfile.mkdtemp(prefix="c12live_")
+        try:
+            with open(os.path.join(d, "c12livemod.py"), "w") as f:
+                f.write(arg)
+            sys.path.insert(0, d)
+            sys.modules.pop("c12livemod", None)
+            importlib.invalidate_caches()
+            mod = importlib.import_module("c12livemod")
+            if op == "parse_live_emit_rest":
+                ir = parse.function(mod.lookup)
+                return canon(ir) + emit.docstring(ir) + to_code(emit.function(ir, function_name=None, function_type=None))
+            return to_code(emit.class_(parse.class_(mod.Store, merge_inner_function="__init__")))
+        finally:
+            if d in sys.path:
+                sys.path.remove(d)
+            sys.modules.pop("c12livemod", None)
+            shutil.rmtree(d, ignore_errors=True)
     if op == "parse_class_emit_function":
         return to_code(emit.function(parse.class_(ast.parse(arg).body[0]), function_name="f", function_type="static"))
     if op == "parse_class_plain":
